@@ -508,25 +508,26 @@ struct DocumentPredicate
             const XalanNode&    node1,
             const XalanNode&    node2) const
     {
-        // Always order a document node, or a node from another
-        // document after another node...
+        // Always order a node from another document after another node.
+        // Normalize so that if we have a document node, it owns
+        // itself, which is not how DOM works...
         const XalanNode::NodeType   node1Type =
             node1.getNodeType();
 
         const XalanNode::NodeType   node2Type =
             node2.getNodeType();
 
-        if ((node1Type == XalanNode::DOCUMENT_NODE ||
-             node1Type == XalanNode::DOCUMENT_FRAGMENT_NODE) &&
-            (node2Type == XalanNode::DOCUMENT_NODE ||
-             node2Type == XalanNode::DOCUMENT_FRAGMENT_NODE))
-        {
-            return true;
-        }
-        else
-        {
-            return node1.getOwnerDocument() != node2.getOwnerDocument();
-        }
+        const XalanNode* const  node1Owner =
+            node1Type == XalanNode::DOCUMENT_NODE ||
+            node1Type == XalanNode::DOCUMENT_FRAGMENT_NODE ?
+                &node1 : node1.getOwnerDocument();
+
+        const XalanNode* const  node2Owner =
+            node2Type == XalanNode::DOCUMENT_NODE ||
+            node2Type == XalanNode::DOCUMENT_FRAGMENT_NODE ?
+                &node2 : node2.getOwnerDocument();
+
+        return node1Owner != node2Owner;
     }
 };
 
@@ -539,8 +540,6 @@ struct IndexPredicate
             const XalanNode&    node1,
             const XalanNode&    node2) const
     {
-        assert(node1.getOwnerDocument() == node2.getOwnerDocument());
-
         return m_documentPredicate(node1, node2) == true ? true : node1.getIndex() > node2.getIndex() ? true : false;
     }
 
@@ -568,14 +567,30 @@ struct ExecutionContextPredicate
         }
         else
         {
-            assert(node1.getOwnerDocument() == node2.getOwnerDocument());
-            assert(
-                node1.getNodeType() != XalanNode::DOCUMENT_NODE &&
-                node1.getNodeType() != XalanNode::DOCUMENT_FRAGMENT_NODE &&
-                node2.getNodeType() != XalanNode::DOCUMENT_NODE &&
-                node2.getNodeType() != XalanNode::DOCUMENT_FRAGMENT_NODE);
+            // A document node comes before every other
+            // node of its document...
+            const XalanNode::NodeType   node1Type =
+                node1.getNodeType();
 
-            return  m_executionContext.isNodeAfter(node1, node2);
+            const XalanNode::NodeType   node2Type =
+                node2.getNodeType();
+
+            if (node1Type == XalanNode::DOCUMENT_NODE ||
+                node1Type == XalanNode::DOCUMENT_FRAGMENT_NODE)
+            {
+                return false;
+            }
+            else if (node2Type == XalanNode::DOCUMENT_NODE ||
+                     node2Type == XalanNode::DOCUMENT_FRAGMENT_NODE)
+            {
+                return true;
+            }
+            else
+            {
+                assert(node1.getOwnerDocument() == node2.getOwnerDocument());
+
+                return  m_executionContext.isNodeAfter(node1, node2);
+            }
         }
     }
 
